@@ -48,7 +48,17 @@ def r1(cx):
         same = {str(o) for k, o in sln.origins(ix.args[0])} == {str(o) for k, o in sln.origins(srch.args[0])}
         okk = from_search and ("RangeTo" in kinds) and not any(k == "bin" for k, o in rorig) and same
         why = "slice bounds %s derive from the search: %s, same string: %s (expected method[..n] with n the position of the last dot, unmodified)" % (sorted(kinds), from_search, same)
-    cx.check(okk, "C03.R1", "varlink:handle:key-is-prefix-before-last-dot", "%s %s" % (d.sp, body.path), why, note_ok="key = method[..rfind('.')]")
+    if not okk and srch.callee.name == "rsplit_once":
+        # `let Some((iface, _)) = method.rsplit_once('.')`: the key is the first element of the pair the search itself returns
+        ks = Slice(body, du, extra_pass=("=to_string", "=to_owned", "=from", "=into", "=as_ref", "=as_str", "=deref", "=borrow"))
+        orig = ks.origins(d.args[1])
+        if orig and all(k == "call" and o is srch for k, o in orig):
+            projs = [proj for (l, proj) in ks.last_seen if l == srch.dest.l and proj]
+            firsts = [pr for pr in projs if pr[-1] == ".0" and any(e.startswith("as Some") for e in pr) and len([e for e in pr if e.startswith(".")]) >= 2]
+            seconds = [pr for pr in projs if pr[-1] == ".1"]
+            okk = bool(firsts) and not seconds
+            why = "the dispatch key is not the first element (the part before the last dot) of rsplit_once('.') (%s)" % projs
+    cx.check(okk, "C03.R1", "varlink:handle:key-is-prefix-before-last-dot", "%s %s" % (d.sp, body.path), why, note_ok="key = method[..rfind('.')]" if srch.callee.name != "rsplit_once" else "key = rsplit_once('.').0")
     # every request with a dot reaches the table dispatch
     some_edge = None
     for b in sorted(cfg.reach(srch.target)):
